@@ -9,7 +9,7 @@ spin-polarised PBE correlation (expression swell after all intermediate quantiti
   (3) the derivative identities of gga_c_pbe[_spin] itself over its own intermediate variables (engine S), for a symbolic parameter beta
       (so that gga_c_pbe_sol[_spin], which calls it with another beta, is covered once the wrapper is seen to forward its arguments).
 
-Only run in the thorough tier (the unfolding takes minutes); in the quick tier the obligations report undecided, as the engine-A ones do.
+With roots of products split into roots of the positive factors (pycv/ssa.py, split_roots) the density derivatives close in seconds (quick tier); the spin-polarised vsigma identities take about 100 s of CPU each (thorough tier only).
 """
 from __future__ import annotations
 
@@ -17,6 +17,7 @@ import ast
 import time
 
 import numpy as np
+import sympy as sp
 
 from contracts import xc_common as X
 from pycv import ssa
@@ -119,7 +120,7 @@ for _ns in (1, 2):
 
 def trace_pbe(Nspin, src=None):
     src = src or source_of("eminus.xc.gga_c_pbe")
-    tr = ssa.Trace()
+    tr = ssa.Trace(split_roots=True)  # roots of products of positive factors are split: (1 + zeta) and (1 - zeta) get their own cube roots
     n = tr.inp("n", positive=True)
     beta = tr.inp("beta", positive=True)
     u = [tr.inp(f"u{c}") for c in "xyz"]
@@ -130,6 +131,7 @@ def trace_pbe(Nspin, src=None):
 
     if Nspin == 2:
         z = tr.inp("zeta")
+        tr.positive_exprs = [sp.expand(1 + z), sp.expand(1 - z)]  # |zeta| < 1
         d = [tr.inp(f"d{c}") for c in "xyz"]
         st.update(zeta=z, d=d)
 
@@ -207,8 +209,8 @@ class PbeCorrelation:
         self.f, self.Nspin, self.kind, self.s, self.source_edit = f, Nspin, kind, s, source_edit
 
     def __call__(self, ob, tier, seed):
-        if tier != "thorough" and self.source_edit is None and self.Nspin == 2:
-            return Result(UNDECIDED, backend="engine-S", detail="the modular proof runs in the thorough tier only (minutes per identity)")
+        if tier != "thorough" and self.source_edit is None and self.Nspin == 2 and self.kind == "vsigma":
+            return Result(UNDECIDED, backend="engine-S", detail="the spin-polarised vsigma identities (three gradient components, about 100 s of CPU each) run in the thorough tier only")
         t0 = time.time()
         src = None
         if self.source_edit is not None:
@@ -295,8 +297,8 @@ for _f in ("gga_c_pbe", "gga_c_pbe_sol"):
             _label = _f + ("_spin" if _ns == 2 else "")
             for _kind in ("vxc", "vsigma"):
                 register(Obligation(name=f"C02.{_label}.{_kind}_{_sp}.modular", prop=PROP, engine="S", functions=[f"eminus.xc.gga_c_pbe:{_label}", "eminus.xc.gga_c_pbe:gga_c_pbe" + ("_spin" if _ns == 2 else "")],
-                                    run=PbeCorrelation(_f, _ns, _kind, _s), budget={"quick": 30, "thorough": 1500}, assumes=("reals", "generic", "callee-contract", "engineS"),
-                                    doc=f"{_kind} identity of {_label} over the function's own intermediate variables (symbolic beta; LDA part and get_xc call site by contract); thorough tier only"))
+                                    run=PbeCorrelation(_f, _ns, _kind, _s), budget={"quick": 240, "thorough": 1500}, assumes=("reals", "generic", "callee-contract", "engineS"),
+                                    doc=f"{_kind} identity of {_label} over the function's own intermediate variables (symbolic beta; LDA part and get_xc call site by contract)"))
 
 
 register(Obligation(name="C02.canary.engineS_wrong_coefficient", prop=PROP, engine="S", functions=["eminus.xc.gga_c_pbe:gga_c_pbe_spin"], canary=True,
